@@ -312,3 +312,38 @@ Theorem source_save_is_last :
   /\ first_pos "Save" SRC_GET_ASSERTION = None
   /\ first_pos "Save" SRC_U2F_AUTHENTICATE = None /\ first_pos "Update" SRC_U2F_AUTHENTICATE = None.
 Proof. vm_compute. repeat split. Qed.
+
+(** *** where the per-credential PRF secrets come from (extensions/hmac_secret.rs, regenerated on every run)
+
+    The model draws the stored secrets with [ERand] (two draws when the non-gated secret is configured) and computes
+    PRF results with [EHmac] (at most two per ceremony); [expand "MakeExt"] / [expand "GetExt"] above are exactly the
+    effect marks of the source functions, and the secrets are assigned from [random_vec] and from nothing else: no
+    hash, no HMAC and no other secret is mentioned where a secret is made. *)
+Definition EXP_MAKE_HMAC_SECRET := ["CredWithUv"; "Rand"; "CredWithoutUv"; "WithoutUvCfg"; "Rand"].
+Definition EXP_MAKE_PRF := ["OnMcCfg"; "CalcHmac"].
+Definition EXP_GET_PRF := ["Err InvalidParameter"; "SelectSalts"; "CalcHmac"].
+Definition EXP_CALCULATE_HMAC_SECRET := ["CredWithUv"; "CredWithoutUv"; "Err UserVerificationBlocked"; "Hmac"; "SupportsNoUv"; "Hmac"].
+Definition EXP_SELECT_SALTS := ["EvalByCred"].
+
+Theorem src_make_hmac_secret_order : SRC_MAKE_HMAC_SECRET = EXP_MAKE_HMAC_SECRET. Proof. reflexivity. Qed.
+Theorem src_make_prf_order : SRC_MAKE_PRF = EXP_MAKE_PRF. Proof. reflexivity. Qed.
+Theorem src_get_prf_order : SRC_GET_PRF = EXP_GET_PRF. Proof. reflexivity. Qed.
+Theorem src_calculate_hmac_secret_order : SRC_CALCULATE_HMAC_SECRET = EXP_CALCULATE_HMAC_SECRET. Proof. reflexivity. Qed.
+Theorem src_select_salts_order : SRC_SELECT_SALTS = EXP_SELECT_SALTS. Proof. reflexivity. Qed.
+
+Theorem source_secret_provenance :
+  (* the helper expansions used by [skeleton] are the effect marks of the source *)
+  filter is_effect_mark (SRC_MAKE_HMAC_SECRET ++ SRC_CALCULATE_HMAC_SECRET) = expand "MakeExt"
+  /\ filter is_effect_mark SRC_CALCULATE_HMAC_SECRET = expand "GetExt"
+  (* each stored secret is followed by its own random draw; making a secret mentions no HMAC and no hash *)
+  /\ before "CredWithUv" "Rand" SRC_MAKE_HMAC_SECRET = true
+  /\ before "CredWithoutUv" "WithoutUvCfg" SRC_MAKE_HMAC_SECRET = true
+  /\ first_pos "Hmac" SRC_MAKE_HMAC_SECRET = None /\ first_pos "Sha256" SRC_MAKE_HMAC_SECRET = None
+  /\ first_pos "CalcHmac" SRC_MAKE_HMAC_SECRET = None
+  (* a ceremony that evaluates the PRF draws no new secret and writes none: no random draw, no store call *)
+  /\ first_pos "Rand" SRC_CALCULATE_HMAC_SECRET = None /\ first_pos "Rand" SRC_GET_PRF = None /\ first_pos "Rand" SRC_MAKE_PRF = None
+  /\ first_pos "Update" SRC_GET_PRF = None /\ first_pos "Save" SRC_GET_PRF = None
+  /\ first_pos "Update" SRC_CALCULATE_HMAC_SECRET = None
+  (* the missing non-gated secret is an error before any HMAC is computed *)
+  /\ before "Err UserVerificationBlocked" "Hmac" SRC_CALCULATE_HMAC_SECRET = true.
+Proof. vm_compute. repeat split. Qed.
